@@ -45,8 +45,11 @@ type FsNode struct {
 	NFiles   int       `json:"nfiles,omitempty"` // a directory of NFiles generated files (large directories)
 }
 
+// FsInput.FailCommit / FailFlavor: the k-th block commit fails (see Store) - the import then has to fail as a whole
 type FsInput struct {
-	Root *FsNode `json:"root"`
+	FailCommit int     `json:"fail_commit,omitempty"`
+	FailFlavor int     `json:"fail_flavor,omitempty"`
+	Root       *FsNode `json:"root"`
 	// the stores of two consecutive imports must both be complete
 	Twice bool `json:"twice,omitempty"`
 }
@@ -274,6 +277,7 @@ func runFsInput(rep *Report, in FsInput, cf *CaseFile) {
 	}
 	for r := 0; r < runs; r++ {
 		st := NewStore()
+		st.FailCommit, st.FailFlavor = in.FailCommit, in.FailFlavor
 		var lnk datamodel.Link
 		var size uint64
 		o := guard(func() error {
@@ -281,6 +285,12 @@ func runFsInput(rep *Report, in FsInput, cf *CaseFile) {
 			lnk, size, err = builder.BuildUnixFSRecursive(root, st.LinkSystem())
 			return err
 		})
+		if in.FailCommit > 0 && o.Class != "ok" {
+			if o.Class == "panic" {
+				fail("C18", "panic", "the importer panicked", "error", "panic")
+			}
+			continue // a write failed and the import said so
+		}
 		if hasFifo(in.Root) {
 			if o.Class == "ok" {
 				fail("C18", "other-accepted", "a tree containing a fifo was imported without error", "error", "ok")
@@ -315,7 +325,7 @@ func scnFsImport(rep *Report, rng *Rng, tier string, outdir string) {
 	cf := NewCaseFile(rep, outdir, "cases_fsimport", "UV.Corr.FsImport", "mismatches_fsimport", 10)
 	rep.P("C18").Rule = "real temporary trees (empty directories, 0-byte files, multi-chunk files, unicode and space names, relative / absolute / dangling symlinks, fifos at any depth, a directory whose estimated size crosses the auto-shard threshold, two consecutive imports into different stores) imported by BuildUnixFSRecursive and walked back through Reify against the filesystem; small trees also compared with the Coq import model (fingerprint + size); distinct = distinct tree; non-trivial = at least 3 nodes"
 	rep.P("C11").Rule = "returned size of recursive imports vs the cumulative size recomputed from the stored blocks"
-	names := []string{"a", "b.txt", "with space", "ünï", "日本", "z", "00", "sub", "deep", "x.y.z"}
+	names := []string{"a", "b.txt", "with space", "ünï", "日本", "z", "00", "sub", "deep", "x.y.z", "caf\xe9.txt", "\xff\xfe name.bin"}
 	var gen func(depth int, name string) *FsNode
 	gen = func(depth int, name string) *FsNode {
 		switch k := rng.Intn(10); {
@@ -377,6 +387,16 @@ func scnFsImport(rep *Report, rng *Rng, tier string, outdir string) {
 		}
 		add(FsInput{Root: &FsNode{Kind: "dir", Name: "r", Children: kids}})
 		add(FsInput{Root: &FsNode{Kind: "symlink", Name: "alone", Target: strings.Repeat("u", 300)}})
+	}
+	// names that are not valid UTF-8 (any byte string but '/' and NUL is a file name), next to their "repaired" spellings
+	add(FsInput{Root: &FsNode{Kind: "dir", Name: "r", Children: []*FsNode{{Kind: "file", Name: "caf\xe9.txt", Size: 4}, {Kind: "file", Name: "caf\xef\xbf\xbd.txt", Size: 5},
+		{Kind: "dir", Name: "\xff\xfe", Children: []*FsNode{{Kind: "file", Name: "\xc3", Size: 1}, {Kind: "symlink", Name: "l\xe9", Target: "\xe9t\xe9"}}}}}})
+	// a block store that loses a write (errors of several shapes): the import fails, or the DAG it returns is complete
+	for k := 1; k <= 9; k++ {
+		for fl := 0; fl <= 2; fl++ {
+			add(FsInput{FailCommit: k, FailFlavor: fl, Root: &FsNode{Kind: "dir", Name: "r", Children: []*FsNode{{Kind: "file", Name: "a", Size: 5}, {Kind: "symlink", Name: "l", Target: "a"},
+				{Kind: "dir", Name: "d", Children: []*FsNode{{Kind: "file", Name: "b", Size: 300, Seed: 2}, {Kind: "symlink", Name: "m", Target: "../a"}, {Kind: "dir", Name: "e", Children: []*FsNode{{Kind: "file", Name: "c", Size: 1}}}}}}}})
+		}
 	}
 	// fifos at several depths
 	add(FsInput{Root: &FsNode{Kind: "fifo", Name: "pipe"}})
